@@ -1,12 +1,13 @@
 SPECIFICATION Spec
 CONSTANTS
- MaxP = 90
- MaxQ = 45
- MaxK = 10
+ MaxP = 47
+ MaxQ = 23
+ MaxK = 7
  Margin = 4
- Variants <- V_com2v
- NaiveMaxP = 0
+ Variants <- A_two
+ NaiveMaxP = 11
  Mode = "acc"
  CheckArith = FALSE
+ SortedBases = TRUE
 INVARIANTS BlockIsDefinition Sound Complete Shape Elements Emit
 CHECK_DEADLOCK FALSE
